@@ -88,6 +88,8 @@ macro_rules! union_shape {
 // Vec::extend: out of memory at 28 GB for every shaping tried, incl. borrowed stack arrays and a no-op sort stub)
 union_shape!(c08_union_2_2_unsorted, 2, 2, false, false);
 union_shape!(c08_union_3_2_unsorted, 3, 2, false, false);
+// receiver out of handle order, argument sorted (what a query UNION accumulates into)
+union_shape!(c08_union_3_2_unsorted_self_sorted_other, 3, 2, false, true);
 
 macro_rules! intersection_shape {
     ($name:ident, $na:expr, $nb:expr, $sa:expr, $sb:expr) => {
